@@ -232,6 +232,44 @@ class OrderDomain(NormDomain):
                     (m, k), = rest.items()
                     if len(m) == 1 and m[0][1] == 1 and k == 1 and m[0][0] in self.lower and self.lower[m[0][0]] + c0 == c:
                         self.lower[m[0][0]] = self.lower[m[0][0]] + 1
+        # and from order tests taken on an integer atom: (n + c0 > c) true => n >= floor(c - c0) + 1, etc.
+        if isinstance(test, ast.Compare) and len(test.ops) == 1 and isinstance(test.ops[0], (ast.Gt, ast.GtE, ast.Lt, ast.LtE)):
+            import math
+            try:
+                a = self.interp.ev(test.left, frame)
+                b = self.interp.ev(test.comparators[0], frame)
+            except Exception:
+                return
+            ra, rb = self.rat(a), self.rat(b)
+            if ra is None or rb is None:
+                return
+            d = ra - rb                      # the test is  d OP 0
+            if not d.den.is_const():
+                return
+            p = d.num * (Fraction(1) / d.den.const_value())
+            c0 = p.t.get((), Fraction(0))
+            rest = {m: k for m, k in p.t.items() if m != ()}
+            if len(rest) != 1:
+                return
+            (m, k), = rest.items()
+            if not (len(m) == 1 and m[0][1] == 1 and k in (1, -1) and m[0][0] in self.lower):
+                return
+            op = type(test.ops[0])
+            if k == -1:                      # -n + c0 OP 0  <=>  n - c0 OP' 0 with the comparison mirrored
+                op = {ast.Gt: ast.Lt, ast.GtE: ast.LtE, ast.Lt: ast.Gt, ast.LtE: ast.GtE}[op]
+                c0 = -c0
+            # now: n + c0 OP 0, i.e. n OP -c0
+            bound = None
+            if op is ast.Gt and truth:
+                bound = math.floor(-c0) + 1
+            elif op is ast.GtE and truth:
+                bound = math.ceil(-c0)
+            elif op is ast.Lt and not truth:
+                bound = math.ceil(-c0)
+            elif op is ast.LtE and not truth:
+                bound = math.floor(-c0) + 1
+            if bound is not None and bound > self.lower[m[0][0]]:
+                self.lower[m[0][0]] = bound
 
     def seq_min(self, sv):
         """Lower bound of the elements of a (sliced, shifted) strictly ascending order list."""
@@ -409,12 +447,18 @@ class OrderDomain(NormDomain):
         prev_loop = getattr(self, '_in_loop', None)
         self._in_loop = (qual, fam, pv, iatom)
         nstores0 = len([e for e in it.events if e['kind'] == 'emit'])
+        broke = False
         try:
             it.exec_block(node.body, frame)
-        except (_Break, _Continue):
-            self.log.append({'kind': 'loop', 'ok': False, 'fn': qual, 'node': node, 'text': 'break/continue inside a recurrence loop'})
+        except _Continue:
+            pass            # the rest of the body is skipped: the state at the `continue` is the state at the end of the pass
+        except _Break:
+            broke = True    # this pass leaves the loop: nothing is owed to a next pass
         finally:
             self._in_loop = prev_loop
+        if broke:
+            self.log.append({'kind': 'loop', 'ok': True, 'fn': qual, 'node': node, 'text': 'a pass that leaves the loop by break (state as at the break)'})
+            return True
         nst = len([e for e in it.events if e['kind'] == 'emit']) - nstores0
         for nm, an in sorted(int_heads.items()):
             v = frame.env.get(nm)
